@@ -426,6 +426,21 @@ func c07Run(c *engine.Ctx) {
 		})
 	}
 	corpus = append(corpus, collectionCorpus(c.Thorough())...)
+	corpus = append(corpus, bigCorpus(false)...)
+	for _, n := range []int{5, 17, 65} {
+		pat := make([]int, n)
+		var shape [][]int
+		for i := range pat {
+			pat[i] = 1
+			shape = append(shape, [][]int{{2, 1}, {1}, {3}}[i%3])
+		}
+		corpus = append(corpus, ref.NewMultiPoint(geom.XYZ, pat, ref.Counter()), ref.NewMultiPolygon(geom.XY, shape, ref.Counter()), ref.NewParts(ref.Polygon, geom.XYZM, pat, ref.Counter()))
+		var kids []*ref.G
+		for i := 0; i < n; i++ {
+			kids = append(kids, ref.NewPoint(geom.XY, true, ref.CounterFrom(float64(i))))
+		}
+		corpus = append(corpus, ref.NewCollection(geom.NoLayout, kids...))
+	}
 	lat := floatLattice(c.Thorough())
 	for i := 0; i+3 <= len(lat); i += 3 {
 		corpus = append(corpus, &ref.G{Kind: ref.Point, Layout: geom.XYZ, C0: ref.FromFloats(lat[i : i+3])})
